@@ -350,7 +350,7 @@ fn continuing_turn_s() -> BoxedStrategy<Turn> {
 fn final_turn_s() -> BoxedStrategy<Turn> {
     let transport = prop_oneof![
         12 => Just(Transport::Ok),
-        3 => (prop::sample::select(vec![400u16, 401, 404, 429, 500, 503]), 0u8..3)
+        4 => (prop::sample::select(vec![400u16, 401, 404, 429, 500, 503]), prop_oneof![3 => 0u8..3, 3 => 3u8..24])
             .prop_map(|(status, body)| Transport::Http { status, body }),
         2 => Just(Transport::Empty),
         4 => any::<u16>().prop_map(|at| Transport::Drop { at }),
@@ -734,6 +734,26 @@ fn render_turn(turn: &Turn, k: usize) -> Reply {
     match &turn.transport {
         Transport::Ok => Reply::sse(partition(body.as_bytes(), &turn.cuts)),
         Transport::Http { status, body: b } => {
+            // 3..: long bodies. kind = (b-3)/4, pad = (b-3)%4 ASCII bytes in front so that multi-byte
+            // characters fall on every alignment relative to any byte limit the runtime applies
+            let long_body: Option<Vec<u8>> = if *b >= 3 {
+                let (kind, pad) = ((*b - 3) / 4, ((*b - 3) % 4) as usize);
+                let mut v: Vec<u8> = "p".repeat(pad).into_bytes();
+                match kind {
+                    0 => v.extend("long ascii failure body ".repeat(250).into_bytes()),
+                    1 => v.extend(format!("{{\"error\":{{\"message\":\"{}\",\"type\":\"rate_limit\"}}}}", "リクエストが多すぎます。しばらくしてからもう一度お試しください。".repeat(40)).into_bytes()),
+                    2 => v.extend(format!("<html><body><h1>Ошибка шлюза</h1><p>{}</p></body></html>", "Сервис временно недоступен — попробуйте позже. ".repeat(60)).into_bytes()),
+                    3 => v.extend("🙂 emoji failure 🙃 ".repeat(300).into_bytes()),
+                    4 => {
+                        v.extend("not utf-8: ".as_bytes());
+                        v.extend(std::iter::repeat([0xffu8, 0xfe, 0xe3, 0x81]).take(900).flatten());
+                    }
+                    _ => v.extend("x".repeat(70_000).into_bytes()),
+                }
+                Some(v)
+            } else {
+                None
+            };
             let mut r = Reply::error(
                 *status,
                 match b {
@@ -745,6 +765,10 @@ fn render_turn(turn: &Turn, k: usize) -> Reply {
             if *b == 1 {
                 r.content_type = Some("text/plain".to_string());
                 r.echo_request = 1;
+            }
+            if let Some(v) = long_body {
+                r.chunks = vec![v];
+                r.content_type = Some(if (*b - 3) / 4 == 2 { "text/html; charset=utf-8" } else { "application/json" }.to_string());
             }
             r
         }
@@ -782,7 +806,10 @@ fn render_fallback(f: &Fallback) -> Reply {
 fn turn_classes(t: &Turn, rep: &mut CaseReport) {
     match &t.transport {
         Transport::Ok => rep.class("provider:ok_stream"),
-        Transport::Http { status, .. } => rep.class(if *status >= 500 { "provider:http_5xx" } else { "provider:http_4xx" }),
+        Transport::Http { status, body } => {
+            rep.class(if *status >= 500 { "provider:http_5xx" } else { "provider:http_4xx" });
+            rep.class_if(*body >= 3, "provider:http_error_long_body");
+        }
         Transport::Empty => rep.class("provider:empty_body"),
         Transport::Drop { .. } => rep.class("provider:connection_drop"),
     }
